@@ -131,3 +131,35 @@ Proof.
     try reflexivity.
   simpl in Hl. lia.
 Qed.
+
+(* ---- from_frame with its header guard: `if frame.hl_packet.header != cls.header: raise ValueError` comes first *)
+Definition from_frame (c : cmd) (hdr : N) (data : list N) : pres :=
+  if hdr =? c_header c then from_body c data else Reject.
+
+Lemma nodup_map_inj : forall (A B : Type) (f : A -> B) (l : list A) x y,
+  NoDup (map f l) -> In x l -> In y l -> f x = f y -> x = y.
+Proof.
+  intros A B f l. induction l as [|a l IH]; intros x y Hnd Hx Hy E; [contradiction|].
+  cbn [map] in Hnd. inversion Hnd as [|b m Hnot Hnd']; subst.
+  destruct Hx as [Hx|Hx]; destruct Hy as [Hy|Hy]; subst.
+  - reflexivity.
+  - exfalso. apply Hnot. rewrite E. apply in_map. exact Hy.
+  - exfalso. apply Hnot. rewrite <- E. apply in_map. exact Hx.
+  - apply IH; assumption.
+Qed.
+
+(* a frame is accepted only by a class whose header it carries; with one-to-one headers over a table of classes, at
+   most one class of the table accepts it - and it is the one the header names *)
+Theorem from_frame_only_for_own_header : forall c hdr data, from_frame c hdr data <> Reject -> hdr = c_header c.
+Proof.
+  intros c hdr data H. unfold from_frame in H. destruct (hdr =? c_header c) eqn:E; [apply N.eqb_eq; exact E|congruence].
+Qed.
+
+Theorem at_most_one_class_accepts : forall (table : list cmd) c1 c2 hdr d1 d2,
+  NoDup (map c_header table) -> In c1 table -> In c2 table ->
+  from_frame c1 hdr d1 <> Reject -> from_frame c2 hdr d2 <> Reject -> c1 = c2.
+Proof.
+  intros table c1 c2 hdr d1 d2 Hnd H1 H2 A1 A2.
+  apply (nodup_map_inj _ _ c_header table c1 c2 Hnd H1 H2).
+  rewrite <- (from_frame_only_for_own_header _ _ _ A1), <- (from_frame_only_for_own_header _ _ _ A2). reflexivity.
+Qed.
